@@ -3,7 +3,7 @@
    constructors' graphs exist for every L >= 1 and denote the textbook formulas: no "returns Ok" hypothesis. *)
 From Coq Require Import ZArith List Lia Bool.
 From PT Require Import Base.Scalar Base.BigSum Model.OpGraph Model.FromOpchains Model.Hamiltonians Model.HamFormulas
-                       Proofs.DenRev_C05 Proofs.HamShift Proofs.C05Total.
+                       Proofs.DenRev_C05 Proofs.HamShift Proofs.C05Total Proofs.C05Len.
 Import ListNotations.
 Open Scope Z_scope.
 
@@ -110,47 +110,47 @@ Section HamTotal.
   Theorem spec_graph_total (sp : hamspec R) L : (1 <= L)%nat ->
     forallb local_ok (h_lop sp) = true -> some_term (h_lop sp) L = true ->
     exists g : graph, spec_graph cover_model sp L = Ok g /\ linked g = true /\
-      (forall fuel b, is_consistent_fuel fuel g = Some b -> b = true) /\
+      (forall fuel b, is_consistent_fuel fuel g = Some b -> b = true) /\ glength g = Some L /\
       forall w, den g w = local_sum L (h_idn sp) (h_lop sp) w.
   Proof.
     intros HL Hlop Hsome.
     assert (Hwf : wf_chains L (spec_chains sp L) = true).
     { apply shift_chains_wf; [exact Hlop|]. apply some_term_nonzero. exact Hsome. }
-    destruct (from_opchains_total_model_cons R (spec_chains sp L) L (h_idn sp) Hwf HL) as [g [Hg [Hl [Hc Hd]]]].
-    exists g. split; [exact Hg|]. split; [exact Hl|]. split; [exact Hc|].
+    destruct (from_opchains_total_model_len R (spec_chains sp L) L (h_idn sp) Hwf HL) as [g [Hg [Hl [Hc [Hn Hd]]]]].
+    exists g. split; [exact Hg|]. split; [exact Hl|]. split; [exact Hc|]. split; [exact Hn|].
     intros w. rewrite Hd. apply shift_chains_den.
   Qed.
 
   Theorem xxz_total (half J D h : R) L : (1 <= L)%nat -> some_term (xxz_lop half J D h) L = true ->
     exists g : graph, spec_graph cover_model (xxz_spec half J D h) L = Ok g /\ linked g = true /\
-      (forall fuel b, is_consistent_fuel fuel g = Some b -> b = true) /\
+      (forall fuel b, is_consistent_fuel fuel g = Some b -> b = true) /\ glength g = Some L /\
       forall w, den g w = xxz_formula half J D h L w.
   Proof.
-    intros HL Hs. destruct (spec_graph_total (xxz_spec half J D h) L HL (xxz_local_ok half J D h) Hs) as [g [Hg [Hl [Hc Hd]]]].
+    intros HL Hs. destruct (spec_graph_total (xxz_spec half J D h) L HL (xxz_local_ok half J D h) Hs) as [g [Hg [Hl [Hc [Hn Hd]]]]].
     exists g. repeat split; auto. intros w. rewrite Hd. apply xxz_table. exact HL.
   Qed.
   Theorem xxz1_total (half sq2 J D h : R) L : (1 <= L)%nat -> some_term (xxz1_lop half J D h) L = true ->
     exists g : graph, spec_graph cover_model (xxz1_spec half sq2 J D h) L = Ok g /\ linked g = true /\
-      (forall fuel b, is_consistent_fuel fuel g = Some b -> b = true) /\
+      (forall fuel b, is_consistent_fuel fuel g = Some b -> b = true) /\ glength g = Some L /\
       forall w, den g w = xxz_formula half J D h L w.
   Proof.
-    intros HL Hs. destruct (spec_graph_total (xxz1_spec half sq2 J D h) L HL (xxz1_local_ok half J D h) Hs) as [g [Hg [Hl [Hc Hd]]]].
+    intros HL Hs. destruct (spec_graph_total (xxz1_spec half sq2 J D h) L HL (xxz1_local_ok half J D h) Hs) as [g [Hg [Hl [Hc [Hn Hd]]]]].
     exists g. repeat split; auto. intros w. rewrite Hd. apply xxz1_table. exact HL.
   Qed.
   Theorem bose_total d sq (t U mu : R) L : (1 <= L)%nat -> some_term (bose_lop t U mu) L = true ->
     exists g : graph, spec_graph cover_model (bose_spec d sq t U mu) L = Ok g /\ linked g = true /\
-      (forall fuel b, is_consistent_fuel fuel g = Some b -> b = true) /\
+      (forall fuel b, is_consistent_fuel fuel g = Some b -> b = true) /\ glength g = Some L /\
       forall w, den g w = bose_formula t U mu L w.
   Proof.
-    intros HL Hs. destruct (spec_graph_total (bose_spec d sq t U mu) L HL (bose_local_ok t U mu) Hs) as [g [Hg [Hl [Hc Hd]]]].
+    intros HL Hs. destruct (spec_graph_total (bose_spec d sq t U mu) L HL (bose_local_ok t U mu) Hs) as [g [Hg [Hl [Hc [Hn Hd]]]]].
     exists g. repeat split; auto. intros w. rewrite Hd. apply bose_table. exact HL.
   Qed.
   Theorem fermi_total (half t U mu : R) L : (1 <= L)%nat -> some_term (fermi_lop t U mu) L = true ->
     exists g : graph, spec_graph cover_model (fermi_spec half t U mu) L = Ok g /\ linked g = true /\
-      (forall fuel b, is_consistent_fuel fuel g = Some b -> b = true) /\
+      (forall fuel b, is_consistent_fuel fuel g = Some b -> b = true) /\ glength g = Some L /\
       forall w, den g w = fermi_formula t U mu L w.
   Proof.
-    intros HL Hs. destruct (spec_graph_total (fermi_spec half t U mu) L HL (fermi_local_ok t U mu) Hs) as [g [Hg [Hl [Hc Hd]]]].
+    intros HL Hs. destruct (spec_graph_total (fermi_spec half t U mu) L HL (fermi_local_ok t U mu) Hs) as [g [Hg [Hl [Hc [Hn Hd]]]]].
     exists g. repeat split; auto. intros w. rewrite Hd. apply fermi_table. exact HL.
   Qed.
 End HamTotal.
